@@ -6,7 +6,9 @@ Independent specification of C09, written from the property text (it shares only
 * the variable `"0"` (or `disable_pedantic()`) at decoration time: the decorator returns the very object it was given,
   unmodified, and nothing is imposed on any later call;
 * unset or `"1"` (or `enable_pedantic()`): the decorators check;
-* whatever happens to the variable afterwards changes nothing for what is already decorated.
+* whatever happens to the variable afterwards changes nothing for what is already decorated;
+* "the very object they were given" is whatever object is handed in — a fresh function, or one that was handed to a
+  decorator before (`redecorate` / `reapply`): only the present value of the variable matters, not the object's past.
 
 Other values of the variable are not claimed (`unclaimed`).
 -/
@@ -51,9 +53,20 @@ structure SSt where
   env : Option String
   handles : List SHandle
   factories : List Deco
+  targets : List (Option Target) := []   -- the object each decoration was applied to
 deriving DecidableEq, Repr
 
-def sinit (e : Option String) : SSt := ⟨e, [], []⟩
+def sinit (e : Option String) : SSt := ⟨e, [], [], []⟩
+
+def srecord (t : Option Target) (p : SSt × SObs) : SSt × SObs := ({ p.1 with targets := p.1.targets ++ [t] }, p.2)
+
+/-- the function object an earlier decoration was applied to (classes are modified in place when decorated: handing the
+    same class object in again is not claimed) -/
+def sagain (targets : List (Option Target)) (h : Nat) : Option Target :=
+  match targets[h]? with
+  | some (some t) => if t.isClass then none else some t
+  | _ => none
+
 
 def spush (s : SSt) (h : SHandle) : SSt := { s with handles := s.handles ++ [h] }
 
@@ -66,6 +79,11 @@ def specDecorate (s : SSt) (d : Deco) (t : Target) : SSt × SObs :=
     | some true =>
       if d.requiresDoc && !t.hasDoc then (spush s .dead, .exact .decoRaised)
       else (spush s (.active d.effect), .enabledDeco)
+
+def specApply (s : SSt) (k : Nat) (t : Target) : SSt × SObs :=
+  match s.factories[k]? with
+  | none => (spush s .dead, .exact .bad)
+  | some d => specDecorate s d t
 
 def specCall (h : SHandle) (k : CallKind) : SObs :=
   match h with
@@ -82,11 +100,16 @@ def specStep (s : SSt) : Op → SSt × SObs
   | .enable => ({ s with env := some "1" }, .exact .none)
   | .disable => ({ s with env := some "0" }, .exact .none)
   | .factory d => ({ s with factories := s.factories ++ [d] }, .exact .none)
-  | .decorate d t => specDecorate s d t
-  | .apply k t =>
-    match s.factories[k]? with
-    | none => (spush s .dead, .exact .bad)
-    | some d => specDecorate s d t
+  | .decorate d t => srecord (some t) (specDecorate s d t)
+  | .apply k t => srecord (some t) (specApply s k t)
+  | .redecorate d h =>
+    match sagain s.targets h with
+    | none => srecord none (spush s .dead, .exact .bad)
+    | some t => srecord (some t) (specDecorate s d t)       -- the object's past does not matter
+  | .reapply k h =>
+    match sagain s.targets h with
+    | none => srecord none (spush s .dead, .exact .bad)
+    | some t => srecord (some t) (specApply s k t)
   | .call h k =>
     match s.handles[h]? with
     | none => (s, .exact .bad)
